@@ -366,6 +366,9 @@ func (x *Exec) execInstr(fr *Frame, b *ssa.BasicBlock, st *State, ins ssa.Instru
 	case *ssa.If:
 		c := x.val(fr, st, in.Cond)
 		c = vc.name("br", c)
+		if fr == x.root && x.dry == 0 && !fr.spec && vc.noName == 0 && c.S != "true" && c.S != "false" && !inLoop(fr.fn, b) {
+			x.branches = append(x.branches, branchCond{c, len(vc.asserts)})
+		}
 		t, f := st, st.clone()
 		t.reach = vc.name("r", and(st.reach, c))
 		f.reach = vc.name("r", and(f.reach, not(c)))
@@ -387,6 +390,19 @@ func (x *Exec) execInstr(fr *Frame, b *ssa.BasicBlock, st *State, ins ssa.Instru
 		panic(engErr("out-of-fragment: %T in %s", ins, fr.fn.Name()))
 	}
 	panic(engErr("out-of-fragment: instruction %T (%s) in %s", ins, ins, fr.fn.Name()))
+}
+
+// inLoop: the block belongs to some natural loop of the function.
+func inLoop(fn *ssa.Function, b *ssa.BasicBlock) bool {
+	cfg := cfgOf(fn)
+	for h := range cfg.headers {
+		for _, lb := range cfg.loopBlocks(h) {
+			if lb == b {
+				return true
+			}
+		}
+	}
+	return false
 }
 
 func (x *Exec) unsupportedValue(fr *Frame, st *State, v ssa.Value, what string) {
